@@ -166,7 +166,7 @@ PROPERTIES = {
     "C10": {
         "level": "other",
         "targets": [F("transforms.values_columns"), F("transforms.dateadd_date_cast"), F("transforms.regex_replace"), F("transforms._get_to_number_args"),
-                    F("transforms._to_decimal"), F("transforms.to_decimal"), F("transforms.try_to_decimal"), F("transforms.to_date"), F("transforms.to_timestamp"), F("transforms.to_timestamp_ntz"), F("transforms.identifier"), F("transforms.sample"), F("transforms.array_agg"), F("transforms.array_agg_within_group"), F("transforms.dateadd_string_literal_timestamp_cast"), F("transforms.datediff_string_literal_timestamp_cast"),
+                    F("transforms._to_decimal"), F("transforms.to_decimal"), F("transforms.try_to_decimal"), F("transforms.to_date"), F("transforms.to_timestamp"), F("transforms.to_timestamp_ntz"), F("transforms.identifier"), F("transforms.sample"), F("transforms.array_agg"), F("transforms.array_agg_within_group"), F("transforms.dateadd_string_literal_timestamp_cast"), F("transforms.datediff_string_literal_timestamp_cast"), F("transforms.sha256"),
                     F("cursor.FakeSnowflakeCursor._transform"), F("cursor.FakeSnowflakeCursor._execute")],
         "also": {"fakesnow.cursor.FakeSnowflakeCursor._transform": [r"C11\.pipeline\.order"]},
         "labelled_only": ["fakesnow.cursor.FakeSnowflakeCursor._execute"],
